@@ -41,6 +41,11 @@ THEOREMS = [
     "OllamaVerif.C04.no_case_twins_fixed",
     "OllamaVerif.C04.reachable_no_twins_fixed",
     "OllamaVerif.C04.failed_create_changes_nothing_fixed",
+    "OllamaVerif.C04.op_preserves_NameInv_fixedAlias",
+    # the guard about auto-detected layers (N2): met by every `from` create, void once N2 is repaired, decidable
+    "OllamaVerif.C04.apartOp_of_from",
+    "OllamaVerif.C04.apartOp_of_fixKeep",
+    "OllamaVerif.C04.runGuard_of_B",
     # witnesses (pinned defects; the same histories with the repairs in)
     "OllamaVerif.C04.F16a_delete_witness",
     "OllamaVerif.C04.F16a_breaks_NameInv",
@@ -48,6 +53,9 @@ THEOREMS = [
     "OllamaVerif.C04.F16b_twin_witness",
     "OllamaVerif.C04.F16b_breaks_NoTwins",
     "OllamaVerif.C04.N1_create_continues_witness",
+    "OllamaVerif.C04.N2_witness",
+    "OllamaVerif.C04.N2_breaks_NameInv",
+    "OllamaVerif.C04.auto_template_override_ok",
     "OllamaVerif.C04.F16a_repaired_witness",
     "OllamaVerif.C04.F16b_repaired_witness",
     "OllamaVerif.C04.N1_repaired_witness",
@@ -87,7 +95,7 @@ def run(ctx):
     serve_sequence_tie(ctx)
     ctx.lean_check(MODULES, THEOREMS)
     import os
-    env = {"VERIF_N": ctx.scale(400, 6000), "VERIF_OPS": 40,
+    env = {"VERIF_N": ctx.scale(300, 5000), "VERIF_OPS": 40,
            "VERIF_CORPUS": os.path.join(core.ROOT, "corpus", "C04")}
     if ctx.replay:
         env["VERIF_REPLAY"] = ctx.replay_line_file()
@@ -95,7 +103,7 @@ def run(ctx):
     if rc != 0:
         ctx.violation("driver-failed", "", out[-1500:], no_input=True)
     st = ctx.read_stats(outdir)
-    ctx.coverage["variant_under_test"] = {k: bool(st.get("variant_" + k, 0)) for k in ("fixAlias", "fixResolve", "fixReturn")}
+    ctx.coverage["variant_under_test"] = {k: bool(st.get("variant_" + k, 0)) for k in ("fixAlias", "fixResolve", "fixReturn", "fixKeep")}
     ctx.l1(outdir)
     ctx.classify(ctx.l2(outdir))
     if ctx.thorough:
